@@ -919,6 +919,8 @@ def gen_creation(tier):
         for c in chunkings_1d(n)[:4]:
             yield [], dict(fn="arange", args=[n], chunks=[c])
             yield [], dict(fn="arange", args=[1, n + 1, 2], chunks=[c])
+            yield [], dict(fn="arange", args=[n, 0, -1], chunks=[c])
+            yield [], dict(fn="arange", args=[n + 3, 1, -3], chunks=[c])
             yield [], dict(fn="linspace", args=[0.0, 1.0, n], chunks=[c])
             yield [], dict(fn="linspace", args=[0.0, 1.0, n], chunks=[c], endpoint=False)
     for shape, chunks in FIXED_GEOMS:
